@@ -3,6 +3,7 @@ All rules read the literal unit catalogue (`get_all_units`) and the conversion f
 HIR/MIR facts; coefficients are evaluated in exact rationals (with pi kept symbolic)."""
 from fractions import Fraction
 from decimal import Decimal
+import re
 from lib import hir as H
 from lib import mir as M
 from lib.facts import CheckerError
@@ -336,7 +337,12 @@ def run(ctx):
             ok = s1 == ("call", "to_kelvin", ("value",)) and s2 == ("call", "from_kelvin", ("value",))
         else:
             ok = None
-        if ok is not True and v in ta and v in fa:
+        lossy7 = sorted({x["name"] for arm_ in (ta.get(v), fa.get(v)) if arm_ is not None for x in H.walk(arm_["body"]) if H.kind(x) == "MethodCall" and x["name"] in
+                         ("max", "min", "abs", "clamp", "round", "floor", "ceil", "trunc", "signum", "rem_euclid") and (x.get("recv_ty") or H.strip(x["recv"]).get("ty") or "").lstrip("&") in ("f64", "f32")})
+        if lossy7:
+            ok = False
+            s1, s2 = "applies %s to the coefficient or the value" % lossy7, "a clamped or rounded factor is a different factor for some units / values: identity, round trip and prefix ratios fail there"
+        if ok is not True and not lossy7 and v in ta and v in fa:
             # any arithmetic spelling: the two arms are rational functions of the value and the variant's fields - compose them on
             # exact rational sample points (an identity of rational functions that holds at more points than its degree holds everywhere)
             from fractions import Fraction as Fr_
@@ -376,6 +382,33 @@ def run(ctx):
         if ok is False and isinstance(s1, (tuple, type(None))) and isinstance(s2, (tuple, type(None))) and "const" not in (str((s1 or ("",))[0]), str((s2 or ("",))[0])) and (s1 is None or s2 is None or "?" in str(s1) + str(s2) or "call" in (s1[0], s2[0])):
             ok = None   # a spelling the shape reader does not follow (a helper, a block): no verdict; a decided pair of operators that is not inverse stays a finding
         ctx.inst("C17.R7", "variant=%s" % v, ok, "to_base: %s ; from_base: %s" % (s1, s2), H.loc(ta[v]["body"]))
+
+    # ---- R10 one unit table in every build
+    ctx.rule("C17.R10", "the unit table does not depend on how the crate is built: nothing in units.rs is gated on a cargo feature, and the workspace takes blots-core with its default features (a gated group of units exists under `cargo test --workspace`, where features are unified, and is missing from a CLI built on its own)", floor=2)
+    import os as os_, tomllib as toml_
+    from lib import facts as F17
+    try:
+        utxt = open(os_.path.join(F17.REPO, "blots-core", "src", "units.rs"), encoding="utf-8").read()
+        gates = sorted(set(re.findall(r"#\[cfg(?:_attr)?\(([^\]]*feature[^\]]*)\)\]", utxt)))
+        ctx.inst("C17.R10", "units.rs#no-feature-gates", not gates, "cfg(feature ..) attributes in units.rs: %s" % (gates or "none"), "blots-core/src/units.rs")
+    except OSError as ex_:
+        ctx.inst("C17.R10", "units.rs#no-feature-gates", None, "units.rs not read: %s" % ex_, None)
+    try:
+        man17 = toml_.load(open(os_.path.join(F17.REPO, "Cargo.toml"), "rb"))
+        dep = (man17.get("workspace", {}).get("dependencies", {}) or {}).get("blots-core")
+        off = isinstance(dep, dict) and dep.get("default-features") is False
+        per = []
+        for m_ in ("blots", "blots-wasm"):
+            try:
+                mm_ = toml_.load(open(os_.path.join(F17.REPO, m_, "Cargo.toml"), "rb"))
+                d_ = (mm_.get("dependencies", {}) or {}).get("blots-core")
+                if isinstance(d_, dict) and d_.get("default-features") is False:
+                    per.append(m_)
+            except OSError:
+                pass
+        ctx.inst("C17.R10", "blots-core#default-features", not off and not per, "blots-core is taken without its default features by: %s" % ((["workspace"] if off else []) + per or "nobody"), "Cargo.toml")
+    except Exception as ex_:
+        ctx.inst("C17.R10", "blots-core#default-features", None, "manifest not read: %s" % ex_, None)
 
     # ---- R5 category gate (MIR dominance) and who-may-call
     ctx.rule("C17.R5", "in units::convert the category comparison (from.category vs to.category) with error exit dominates convert_to_base(from)/convert_from_base(to); those two have no other callers", floor=3)
